@@ -1,0 +1,13 @@
+//go:build verif
+
+package syntax
+
+// VerifIDRangeTable - returns a copy of the identifier range table
+// (read-only accessor for the verification harness)
+func VerifIDRangeTable() [][2]rune {
+	out := make([][2]rune, len(idRange))
+	for i, p := range idRange {
+		out[i] = [2]rune{p[0], p[1]}
+	}
+	return out
+}
